@@ -226,20 +226,20 @@ def tasks(tier, seed, selftest=False):
         add("U2", "lim", "bfs", 60)
         return T
     for kind in EXP_OPS + ["blockp"]:
-        add("U2", "lim", kind, 120)
-        add("U2", "motifs", kind, 120)
-        add("U2", "fault", kind, 120)
-        add("D3", "lim", kind, 20 if q else 600)
-        add("D3", "motifs", kind, 15 if q else 600)
-        add("D3", "fault", kind, 15 if q else 600)
+        add("U2", "lim", kind, 25 if q else 600)
+        add("U2", "motifs", kind, 25 if q else 600)
+        add("U2", "fault", kind, 25 if q else 600)
+        add("D3", "lim", kind, 12 if q else 600)
+        add("D3", "motifs", kind, 10 if q else 600)
+        add("D3", "fault", kind, 10 if q else 600)
     for pre in PREFIX_OPS:
         for kind in ("bfs", "dfs", "minp", "aseeds", "target"):
-            add("U2", "pre:" + pre, kind, 8 if q else 900)
+            add("U2", "pre:" + pre, kind, 6 if q else 900)
     for kind in ("seeds", "cands"):
-        add("U2", "cand", kind, 120)
-        add("U2", "fault", kind, 120)
-        add("D3", "cand", kind, 25 if q else 900)
-        add("D3", "fault", kind, 20 if q else 900)
+        add("U2", "cand", kind, 25 if q else 900)
+        add("U2", "fault", kind, 25 if q else 900)
+        add("D3", "cand", kind, 15 if q else 900)
+        add("D3", "fault", kind, 12 if q else 900)
     return T
 
 
@@ -247,7 +247,7 @@ def main(tier, seed, t0, selftest=False):
     results = common.run_tasks(tasks(tier, seed, selftest))
     return common.finish(PROP, tier, seed, "model_checking", results, t0, selftest=selftest, functions=FUNCTIONS,
                          bounds={"scenarios": "lim: symbolic size/level/stack limits; pre:<op>: the same after a plain prefix call (return-value clause and invariant only); motifs: max_motifs_per_node in 0..6; cand: attractor_candidates_limit, retained_set_optimization_threshold in 0..5; fault: RuntimeError at ASP solver call 1..8 (trappist / compute_fixed_point_reduced_STG)",
-                                 "families": "U2 exhaustive, D3 time-boxed (quick) / long time box (thorough)",
+                                 "families": "U2 and D3 time-boxed (quick: 6-25 s per scenario; thorough: 10-15 min per scenario, U2 scenarios then run to exhaustion)",
                                  "comparison": "resumed vs uninterrupted twin: node (space, expanded, skipped) sets, (parent, child, motif list) edges, attractor answers; ids not compared"},
                          assumptions=["a solver failure is modelled as RuntimeError raised by an ASP solver call (trappist, compute_fixed_point_reduced_STG); failures of BDD operations are outside the property's quantifier",
                                       "contract stubs of DESIGN.md §8 validated on every representative"])
